@@ -104,6 +104,11 @@ class ReprObj:
         self.calls += 1
         return self.s
 
+    def __eq__(self, other):  # a user-defined value object
+        return type(other) is type(self) and other.s == self.s
+
+    __hash__ = None
+
 
 class TF:
     """Tagifiable whose tagify() returns a freshly built (already tagified) payload."""
